@@ -596,8 +596,13 @@ def _check_odxraise(prog: Program, run: Run, exc: Module) -> None:
     # every raise raises the caller-supplied type
     for r in raises:
         e = r.stmt.exc  # type: ignore[attr-defined]
-        if e is None or not (isinstance(e, ast.Call) and isinstance(e.func, ast.Name) and
-                             e.func.id in f.params()):
+
+        def arms(x):
+            if isinstance(x, ast.IfExp):
+                return arms(x.body) + arms(x.orelse)
+            return [x]
+        if e is None or not all(isinstance(a, ast.Call) and isinstance(a.func, ast.Name) and
+                                a.func.id in f.params() for a in arms(e)):
             ok = False
             run.violation("C17.R2", "odxraise", "raises-other-type",
                           f"`{stmt_key(r.stmt)}` does not raise the error type handed in by the "
